@@ -344,6 +344,21 @@ where
         self.remainders.element_bits()
     }
 
+    /// Verification hook: per-slot `(is_occupied, is_continuation, is_shifted, remainder)`.
+    #[cfg(feature = "verif_hooks")]
+    pub fn verif_dump(&self) -> Vec<(bool, bool, bool, u64)> {
+        (0..self.is_occupied.len())
+            .map(|i| {
+                (
+                    self.is_occupied[i],
+                    self.is_continuation[i],
+                    self.is_shifted[i],
+                    self.remainders.get(i as u64) as u64,
+                )
+            })
+            .collect()
+    }
+
     fn calc_quotient_remainder(&self, obj: &T) -> (usize, usize) {
         let bits_remainder = self.bits_remainder();
         let fingerprint = self.buildhasher.hash_one(obj);
@@ -360,6 +375,10 @@ where
     }
 
     fn decr(&self, pos: &mut usize) {
+        #[cfg(feature = "verif_hooks")]
+        if *pos == 0 {
+            crate::verif::hit(crate::verif::Event::QfWrapDecr);
+        }
         *pos = if *pos == 0 {
             self.is_occupied.len() - 1
         } else {
@@ -368,6 +387,10 @@ where
     }
 
     fn incr(&self, pos: &mut usize) {
+        #[cfg(feature = "verif_hooks")]
+        if *pos == self.is_occupied.len() - 1 {
+            crate::verif::hit(crate::verif::Event::QfWrapIncr);
+        }
         *pos = if *pos == self.is_occupied.len() - 1 {
             0
         } else {
@@ -460,14 +483,28 @@ where
 
         // early exit if the element is already present
         if scan_result.present {
+            #[cfg(feature = "verif_hooks")]
+            crate::verif::hit(crate::verif::Event::QfKnown);
             return Ok(false);
         }
         // we need to insert the element into the filter
 
         // error out if there is no space left
         if self.n_elements == self.is_occupied.len() {
+            #[cfg(feature = "verif_hooks")]
+            crate::verif::hit(crate::verif::Event::QfFull);
             return Err(QuotientFilterFull);
         }
+        #[cfg(feature = "verif_hooks")]
+        crate::verif::hit(if !scan_result.has_run() {
+            crate::verif::Event::QfNewRun
+        } else if scan_result.at_start_of_run() {
+            crate::verif::Event::QfRunHead
+        } else if self.is_continuation[scan_result.position] {
+            crate::verif::Event::QfRunMiddle
+        } else {
+            crate::verif::Event::QfRunAppend
+        });
 
         // set up swap chain
         let mut current_is_continuation =
@@ -492,6 +529,8 @@ where
         let start = scan_result.position;
         let mut position = scan_result.position;
         while current_used {
+            #[cfg(feature = "verif_hooks")]
+            crate::verif::hit(crate::verif::Event::QfShiftStep);
             self.incr(&mut position);
             let next_is_continuation = self.is_continuation[position];
             let next_remainder = self.remainders.get(position as u64);
@@ -564,18 +603,41 @@ where
         let is_shifted_backup = self.is_shifted.clone();
         let remainders_backup = self.remainders.clone();
         let n_elements_backup = self.n_elements;
+        #[cfg(feature = "verif_hooks")]
+        let mut verif_transferred: usize = 0;
+        #[cfg(feature = "verif_hooks")]
+        let verif_fail = |transferred: usize| {
+            crate::verif::hit(if transferred == 0 {
+                crate::verif::Event::QfUnionFailFirst
+            } else if transferred + 1 == other.n_elements {
+                crate::verif::Event::QfUnionFailLast
+            } else {
+                crate::verif::Event::QfUnionFailMiddle
+            })
+        };
 
         for i in 0..other.is_occupied.len() {
             if other.is_occupied[i] && !other.is_shifted[i] {
                 // found cluster start
+                #[cfg(feature = "verif_hooks")]
+                crate::verif::hit(crate::verif::Event::QfUnionCluster);
+                #[cfg(feature = "verif_hooks")]
+                let mut verif_runs: usize = 1;
                 let mut quotient = i;
                 if let Err(err) = self.insert_internal(quotient, other.remainders.get(i as u64)) {
+                    #[cfg(feature = "verif_hooks")]
+                    verif_fail(verif_transferred);
                     self.is_occupied = is_occupied_backup;
                     self.is_continuation = is_continuation_backup;
                     self.is_shifted = is_shifted_backup;
                     self.remainders = remainders_backup;
                     self.n_elements = n_elements_backup;
                     return Err(err);
+                }
+
+                #[cfg(feature = "verif_hooks")]
+                {
+                    verif_transferred += 1;
                 }
 
                 let mut next_quotients = VecDeque::new();
@@ -590,9 +652,23 @@ where
                     if !other.is_continuation[j] {
                         // this is the start of another run, get the quotient
                         quotient = next_quotients.pop_front().unwrap();
+                        #[cfg(feature = "verif_hooks")]
+                        {
+                            verif_runs += 1;
+                            crate::verif::gauge_max(
+                                crate::verif::Event::QfUnionRunsInClusterMax,
+                                verif_runs,
+                            );
+                        }
+                    }
+                    #[cfg(feature = "verif_hooks")]
+                    if j < i {
+                        crate::verif::hit(crate::verif::Event::QfUnionWrappedCluster);
                     }
                     if let Err(err) = self.insert_internal(quotient, other.remainders.get(j as u64))
                     {
+                        #[cfg(feature = "verif_hooks")]
+                        verif_fail(verif_transferred);
                         self.is_occupied = is_occupied_backup;
                         self.is_continuation = is_continuation_backup;
                         self.is_shifted = is_shifted_backup;
@@ -601,6 +677,10 @@ where
                         return Err(err);
                     }
 
+                    #[cfg(feature = "verif_hooks")]
+                    {
+                        verif_transferred += 1;
+                    }
                     self.incr(&mut j)
                 }
             }
